@@ -7,6 +7,7 @@ evaluated on a deep copy after every step.
 """
 
 import copy
+import sys
 import os
 
 import numpy as np
@@ -50,7 +51,7 @@ VALUES = {
     "atcorenums": [None, [1.0], [6.0, 1.0], [8.0, 1.0], [4.0, 4.0], [8.0, 1.0, 1.0], [2.5, 0.0], [], {"scalar": 10.0}],
     "charge": [None, 0, 1, -1, 0.5, 2.0],
     "nelec": [None, 10, 9, 2, 9.5, 0],
-    "spinpol": [None, 0, 1, 2],
+    "spinpol": [None, 0, 1, 2, 0.4, 2.5, 0.9999999999999999],
     "mo": [None, "R2", "R21", "U2", "Rfrac", "G", "Rnone", "Unone"],
     "atcoords": [None, 1, 2, 3, 0, {"flat": 2}, {"flat": 3}],
     "atmasses": [None, 1, 2, 3, 0],
@@ -460,6 +461,10 @@ def run_threads(trace, rng=None):
 
 
 def execute(trace):
+    if trace.get("pyopt") and not sys.flags.optimize:
+        from sim import pyopt
+
+        return pyopt.execute_optimized("checks.c11", trace)
     if "histories" in trace:
         return run_threads(trace, rng=common.rng_for("replay"))[0]
     out, mo_a, fin_a, info = run_ops(trace, True, True)
@@ -571,6 +576,12 @@ def plan(tier, seed, args):
         for i in range(n):
             tasks.append({"run": run, "seed": seed, "tier": tier, "n": 40})
             run += 1
+        # the same kind of seeded histories in an interpreter started with -O (fresh run ids): chunks of 25 tasks per interpreter
+        first = run
+        nopt = max(25, n // 6)
+        for lo in range(0, nopt, 25):
+            tasks.append({"run": first + lo, "seed": seed, "tier": tier, "n": 40, "pyopt": True, "sub": list(range(first + lo, first + min(lo + 25, nopt)))})
+        run = first + nopt
         for i in range(n // 2):
             tasks.append({"run": run, "seed": seed, "tier": tier, "threads": 12})
             run += 1
@@ -578,6 +589,12 @@ def plan(tier, seed, args):
 
 
 def run_task(task):
+    if task.get("pyopt") and not sys.flags.optimize:
+        # environment dimension: the same seeded tasks in an interpreter started with -O (no assert statements)
+        from sim import pyopt
+
+        sub = [{k: v for k, v in task.items() if k not in ("pyopt", "sub")} | {"run": r} for r in task["sub"]]
+        return pyopt.merge(pyopt.run_optimized("checks.c11", sub), "pyopt")
     rng = common.rng_for(task["seed"], ID, task["run"])
     stats = Stats()
     viols = []
